@@ -15,9 +15,13 @@ R10 = {
  "c11-format-sorts-live-table": ("RoutingTable.Format (the dashboard's table page) sorts `rt.entries` itself - the live backing array - by routing prefix: with nested routable prefixes the table is out of routing order until the next cleanup; lookups return other destinations, re-announcements are inserted as duplicates.", False, "@C11@"),
  "c12-stale-switchblock-cache": ("FrameV1 caches the switch block as a slice; moveToBiggerSlice (an appendix that does not fit the pooled buffer) does not refresh it: after the move the switch rotates the block inside the OLD, released buffer - the block on the wire is never rotated, bytes outside the frame are written.", False, "@C12@"),
  "c13-lock-order-route-lookup": ("RouteFrame filters routes by asking the link registry (GetLink) from inside the routing table's read lock, while AddLink/RemoveLink take the registry lock and then the table lock: link churn concurrent with routed traffic deadlocks a router worker and, behind it, the whole router.", False, "@C13@"),
- "c14-error-ping-rekeys-without-clearing": ("on a `no encryption keys` error ping the router starts a hello exchange itself and keeps the old session until it completes: if the response is lost, the sender keeps the OLD keys (so its next packet starts nothing) while the restarted peer holds new ones - both established, nothing decrypts.", False, "@C14@"),
- "c15-linkframe-no-check": ("LinkFrame.Unseal no longer calls Check on the link session: the receiver's highest sequence number never advances, so it never follows the sender's key roll-over (and link frames replay freely).", False, "@C15@"),
+ "c14-error-ping-rekeys-without-clearing": ("on a `no encryption keys` error ping the router starts a hello exchange itself and keeps the old session until it completes: if the response is lost, the sender keeps the OLD keys (so its next packet starts nothing) while the restarted peer holds new ones - both established, nothing decrypts.", True, "caught by the first version: KeySetup's schedules with a `no keys` error ping (action Forget / data / err) end in a mismatch the specification of the code does not allow: mismatch/divergent/code."),
+ "c15-linkframe-no-check": ("LinkFrame.Unseal no longer calls Check on the link session: the receiver's highest sequence number never advances, so it never follows the sender's key roll-over (and link frames replay freely).", True, "caught by the first version: link sessions are driven over the wrap by the walks and install histories of C15: accepted-twice/LinkFrame/r."),
  "c16-setup-timeout-closes-before-add": ("accepted connections get a 10 s set-up timer whose Stop() result is ignored: a timer that fires after the last set-up message was read closes the link BEFORE AddLink registers it - a closing link stays registered (findable by peer and label, peer route kept) for good.", False, "@C16@"),
+ "c17-reader-trims-pooled-slice": ("the link reader hands ParseFrame the pooled slice trimmed to the bytes read: an appendix grown in place on a frame that came from a real link is lost by Clone (bytes past the received length are zero), and the link margins are reported unavailable although the buffer has room.", False, "@C17@"),
+ "c18-dns-removes-shadowed-mappings": ("dns.New deletes stored mappings whose name a higher-priority source answers (friend, resolve entry, API name): a mapping shadowed by a configuration change is gone from the state file after the next start and clean shutdown - only when the DNS server is constructed (tun enabled).", False, "@C18@"),
+ "c19-failed-write-falls-back-nxdomain": ("when writing the positive reply fails once (write deadline, ENOBUFS) the handler falls back to replyNotFound: the client is told NXDOMAIN for a name that has a source, instead of nothing.", False, "@C19@"),
+ "c20-setup-timeout-orphans-goroutine": ("outgoing link set-up runs on a raw goroutine that reports over an unbuffered channel, with a 10 s timeout in the caller: a handshake answered after more than 10 s leaves one goroutine blocked for ever (no manager counts it) and the routers never peer over a slow path.", False, "@C20@"),
 }
 CAUGHT = {}
 cp = '/verif/tools/seed_meta10_caught.json'
